@@ -133,6 +133,7 @@ def utf8Mbr (s : Bytes) : MbRes :=
       | b1 :: r2 =>
         if !cont b1 then .invalid
         else if b0 = 0xe0 ∧ b1 < 0xa0 then .invalid
+        else if b0 = 0xed ∧ b1 ≥ 0xa0 then .invalid       -- UTF-16 surrogates
         else
           match r2 with
           | [] => .incomplete
